@@ -202,6 +202,14 @@ def ig_pattern(want):
 ig = {w: ig_pattern(w) for w in ('SCS', 'SCR', 'RCS', 'RCR')}
 
 
+def _gen_any(rng):
+    return make_case(rng, IG, random_state(rng, rng.choice(['SCS', 'SCR', 'RCS', 'RCR', None])))
+
+
+# all patterns mixed, whatever the solver's classification makes of the data
+ig_all = with_hist(O.make(_gen_any, lambda c: check_case(c, 'IGEOS', TOL_IG), 'c04.igeos.all'))
+
+
 def _gen_identical(rng):
     """identical (p, rho, u) on the two sides, unequal gammas: a material interface at rest in the gas"""
     st = random_state(rng)
@@ -251,7 +259,8 @@ def thorough_only(gen, check, name):
         if not deep and replay is None:
             return dict(evaluations=0, failures=[], samples=[], worst=dict(note='thorough tier only (2 s per call)'),
                         distinct_nontrivial=0)
-        return run(rng, budget, deep, replay)
+        # 4-8 s per case: give the sweep at least 45 s, whatever the property's oracle budget
+        return run(rng, max(budget, 45.0), deep, replay)
     run2.__name__ = name
     return run2
 
